@@ -20,7 +20,10 @@ import fam_emitast
 
 ID = "C13"
 COQ_PROP = "C13"
-FAMILIES = [(fam_emitast, 4000, 40000)]
+import fam_docemit  # noqa: E402
+
+# the docstring emitter is the fourth shared-input conversion (its purity is the premise of theorem C13)
+FAMILIES = [(fam_emitast, 3000, 40000), (fam_docemit, 1500, 20000)]
 TECHNIQUE = ("Coq proof (the three AST emitters write nothing into the IR; non-interference by induction over call sequences "
              "of any length; emit.docstring abstract with the hypothesis that it does not write) + differential "
              "correspondence of EmitAst.v (artefact AND post-call IR) "
